@@ -1011,7 +1011,7 @@ struct FontCase {
     fmt: u8,
     glyphs: u32,
     height: u8,
-    /// 0 = BitFont::from_bytes, 1 = CTerm font DCS on a terminal, 2 = FONT_2 chunk of an .icy file
+    /// route, see font_route: 0 = BitFont::from_bytes, 1 = CTerm font DCS on a terminal, 2 = FONT_2 chunk of an .icy file, 3 = set into a slot, selected, drawn with
     via: u8,
     /// glyph byte i is (i*mul + add) mod 256
     mul: u8,
@@ -1071,7 +1071,7 @@ const FONT_COUNTS: &[u32] = &[1, 255, 256, 257, 512, 0xD7FF, 0xD800, 0xD801, 0xD
 
 fn font_strategy() -> BoxedStrategy<FontCase> {
     let glyphs = prop_oneof![2 => 0u32..=600, 2 => 0xD700u32..=0xE100, 2 => prop::sample::select(FONT_COUNTS.to_vec()), 2 => 0u32..=0x2_0000];
-    (0u8..=3, glyphs, prop_oneof![3 => Just(1u8), 1 => 1u8..=4, 1 => prop::sample::select(vec![8u8, 14, 16, 32])], prop_oneof![3 => Just(0u8), 1 => Just(1u8), 1 => Just(2u8)], any::<u8>(), any::<u8>(), 0u8..=1)
+    (0u8..=3, glyphs, prop_oneof![3 => Just(1u8), 1 => 1u8..=4, 1 => prop::sample::select(vec![8u8, 14, 16, 32])], prop_oneof![3 => Just(0u8), 1 => Just(1u8), 1 => Just(2u8), 1 => Just(3u8)], any::<u8>(), any::<u8>(), 0u8..=1)
         .prop_map(|(fmt, glyphs, height, via, mul, add, psf1_mode)| FontCase { fmt, glyphs, height, via, mul, add, psf1_mode })
         .boxed()
 }
@@ -1081,73 +1081,387 @@ fn font_table(i: u64) -> FontCase {
     FontCase { fmt: ((i / n) % 3) as u8, glyphs: FONT_COUNTS[(i % n) as usize], height: 1, via: (i / (3 * n)) as u8, mul: 7, add: 1, psf1_mode: 0 }
 }
 
-fn check_font(c: &FontCase) -> Verdict {
-    let data = font_bytes(c);
-    let g = font_glyphs(c);
-    let fmt = FONT_FMT[(c.fmt % 4) as usize];
-    let crosses = g > 0xD800;
-    let via = c.via % 3;
-    let report = |font: &BitFont, route: &str| -> Option<Verdict> {
+const ROUTES: &[&str] = &["direct", "dcs", "icy", "slot"];
+
+/// Load font bytes through one of the four routes and scan what the engine keeps: every key of `BitFont::glyphs`, the font name,
+/// and (routes with a terminal) every cell. Ok("ok" | "err" | "not_set") or the failure.
+/// 0 = BitFont::from_bytes, 1 = CTerm font DCS, 2 = FONT_2 chunk of an .icy file, 3 = from_bytes, Buffer::set_font into slot 1,
+/// slot selected with `CSI 0;1 SP D`, a character and a DECFRA with `probe` as fill code drawn, then everything scanned.
+fn font_route(data: &[u8], via: u8, src: &str, what: &str, probe: u32) -> Result<&'static str, Verdict> {
+    let route = ROUTES[(via % 4) as usize];
+    let scan = |font: &BitFont, slot: &str| -> Result<(), Verdict> {
         if let Some((n, v)) = scan_font(font) {
-            return Some(Verdict::fail(
-                format!("invalid_char.glyph_key|source={fmt}"),
-                format!("{fmt} font data with {g} glyphs of height {} ({} bytes) loaded through {route}: {n} keys of BitFont::glyphs are not scalar values, smallest {v:#x}", font_height(c), data.len()),
+            return Err(Verdict::fail(
+                format!("invalid_char.glyph_key|source={src}"),
+                format!("{what} ({} bytes) loaded through route '{route}'{slot}: {n} keys of BitFont::glyphs are not scalar values, smallest {v:#x}", data.len()),
             ));
         }
-        utf8_err(&font.name).map(|e| Verdict::fail(format!("invalid_utf8.font_name|source={fmt}"), format!("font name is not UTF-8: {e}")))
+        match utf8_err(&font.name) {
+            Some(e) => Err(Verdict::fail(format!("invalid_utf8.font_name|source={src}"), format!("{what}: font name is not UTF-8: {e}"))),
+            None => Ok(()),
+        }
     };
-    let class;
-    match via {
-        0 => match BitFont::from_bytes("probe", &data) {
-            Ok(font) => {
-                if let Some(v) = report(&font, "BitFont::from_bytes") {
-                    return v;
-                }
-                class = format!("font:{fmt}:direct:{}", if crosses { "crosses_d800" } else { "below" });
-            }
-            Err(_) => class = format!("font:{fmt}:direct:err"),
+    let scan_all = |buf: &Buffer| -> Result<(), Verdict> {
+        let mut fonts: Vec<(&usize, &BitFont)> = buf.font_iter().collect();
+        fonts.sort_by_key(|(k, _)| **k);
+        for (k, f) in fonts {
+            scan(f, &format!(", font slot {k}"))?;
+        }
+        match scan_buffer_cells(buf).first() {
+            Some(b) => Err(Verdict::fail(format!("invalid_char.cell|source={src}"), format!("{what} loaded through route '{route}': {}", b.describe()))),
+            None => Ok(()),
+        }
+    };
+    match via % 4 {
+        0 => match BitFont::from_bytes("probe", data) {
+            Ok(font) => scan(&font, "").map(|_| "ok"),
+            Err(_) => Ok("err"),
         },
         1 => {
             let (mut buf, mut caret) = stream::make_terminal(80, 25, 0);
             let mut parser = ansi::Parser::default();
             let mut s = b"\x1bPCTerm:Font:7:".to_vec();
-            s.extend(stream::b64(&data));
+            s.extend(stream::b64(data));
             s.extend(b"\x1b\\");
             let errs = feed(&mut parser, &mut buf, &mut caret, &s);
-            match buf.get_font(7) {
-                Some(font) => {
-                    if let Some(v) = report(font, "the CTerm font DCS") {
-                        return v;
-                    }
-                    class = format!("font:{fmt}:dcs:{}", if crosses { "crosses_d800" } else { "below" });
-                }
-                None => class = format!("font:{fmt}:dcs:{}", if errs > 0 { "err" } else { "not_set" }),
-            }
-            if let Some(b) = scan_buffer_cells(&buf).first() {
-                return Verdict::fail("invalid_char.cell|source=font_dcs", format!("after a CTerm font DCS: {}", b.describe()));
-            }
+            scan_all(&buf)?;
+            Ok(if buf.get_font(7).is_some() {
+                "ok"
+            } else if errs > 0 {
+                "err"
+            } else {
+                "not_set"
+            })
         }
-        _ => {
+        2 => {
             let t = icy_template();
             let mut f = Vec::new();
             len_prefixed(&mut f, b"probe");
-            f.extend(&data);
+            f.extend(data);
             let chunks = vec![("ICED".to_string(), t.iced.clone()), ("FONT_2".to_string(), f), ("END".to_string(), Vec::new())];
             match Buffer::from_bytes(Path::new("x.icy"), false, &png_with_chunks(&chunks)) {
-                Ok(buf) => match buf.get_font(2) {
-                    Some(font) => {
-                        if let Some(v) = report(font, "a FONT_2 chunk of an .icy file") {
-                            return v;
-                        }
-                        class = format!("font:{fmt}:icy:{}", if crosses { "crosses_d800" } else { "below" });
-                    }
-                    None => class = format!("font:{fmt}:icy:not_set"),
-                },
-                Err(_) => class = format!("font:{fmt}:icy:err"),
+                Ok(buf) => {
+                    scan_all(&buf)?;
+                    Ok(if buf.get_font(2).is_some() { "ok" } else { "not_set" })
+                }
+                Err(_) => Ok("err"),
             }
         }
+        _ => match BitFont::from_bytes("probe", data) {
+            Ok(font) => {
+                let (mut buf, mut caret) = stream::make_terminal(80, 25, 1);
+                let mut parser = ansi::Parser::default();
+                buf.set_font(1, font);
+                feed(&mut parser, &mut buf, &mut caret, format!("\x1b[0;1 DA\x1b[{probe};2;2;3;4$x").as_bytes());
+                scan_all(&buf).map(|_| "ok")
+            }
+            Err(_) => Ok("err"),
+        },
     }
-    Verdict::pass(crosses && !class.ends_with("err") && !class.ends_with("not_set"), class)
+}
+
+fn check_font(c: &FontCase) -> Verdict {
+    let data = font_bytes(c);
+    let g = font_glyphs(c);
+    let fmt = FONT_FMT[(c.fmt % 4) as usize];
+    let crosses = g > 0xD800;
+    let what = format!("{fmt} font data with {g} glyphs of height {}", font_height(c));
+    match font_route(&data, c.via, fmt, &what, 0xD800 + (c.add as u32) * 8) {
+        Err(v) => v,
+        Ok(outcome) => {
+            let class = format!("font:{fmt}:{}:{}", ROUTES[(c.via % 4) as usize], if outcome != "ok" { outcome } else if crosses { "crosses_d800" } else { "below" });
+            Verdict::pass(crosses && outcome == "ok", class)
+        }
+    }
+}
+
+// ------------------------------------------------------------------------------------------------
+// (iv b) fonts with the optional unicode table (PSF1 mode bits 0x02 / 0x04, PSF2 flags bit 0)
+// ------------------------------------------------------------------------------------------------
+// Layout from the PSF specification (kbd: psf.h / psf-formats): behind the bitmaps, per glyph: single values, then any number of
+// sequences each introduced by a start-of-sequence mark, then a terminator. PSF1: UCS-2 LE units, 0xFFFE starts a sequence, 0xFFFF
+// terminates. PSF2: UTF-8, byte 0xFE starts a sequence, byte 0xFF terminates. The unchanged loader ignores the section (PSF1: takes
+// it for further bitmaps; PSF2: rejects the length): this is where a "now supported" change would convert numbers to chars.
+
+#[derive(Clone, Debug, Default, Hash, Serialize, Deserialize)]
+struct UniList {
+    /// single code values (PSF1: low 16 bits are written)
+    values: Vec<u32>,
+    /// combining sequences
+    seqs: Vec<Vec<u32>>,
+    /// PSF2 only: raw bytes written in place of a further value (ill-formed UTF-8)
+    raw: Bytes,
+}
+
+#[derive(Clone, Debug, Hash, Serialize, Deserialize)]
+struct UniTabCase {
+    psf2: bool,
+    /// PSF1: the mode byte (bit 0: 512 glyphs, bit 1: has table, bit 2: has sequences); PSF2: the flags word (bit 0: has table)
+    mode: u8,
+    height: u8,
+    /// PSF2 glyph count (PSF1: 256 / 512 from the mode)
+    glyphs: u16,
+    /// glyph i gets lists[i mod len] (no lists: empty list) ...
+    lists: Vec<UniList>,
+    /// ... except glyph pick(special_at, count), which gets `special` when there is one
+    special_at: u16,
+    special: Option<UniList>,
+    /// 0 complete, 1 last glyph's list missing, 2 one list too many, 3 final terminator missing, 4 one stray byte at the end (PSF1: odd length),
+    /// 5 a stray value behind the last terminator, 6 no table bytes at all
+    variant: u8,
+    via: u8,
+    mul: u8,
+    add: u8,
+}
+
+const UNI_EDGES: &[u32] = &[0x41, 0xE9, 0x2592, 0xD7FF, 0xD800, 0xDBFF, 0xDC00, 0xDFFF, 0xE000, 0xFFFD, 0xFFFE, 0xFFFF];
+const UNI_EDGES_PSF2: &[u32] = &[0x1_0000, 0x10_FFFF, 0x11_0000, 0x1F_FFFF];
+const UNI_VARIANTS: u8 = 7;
+
+fn unitab_glyphs(c: &UniTabCase) -> usize {
+    if c.psf2 {
+        (c.glyphs as usize).clamp(1, 600)
+    } else if c.mode & 1 != 0 {
+        512
+    } else {
+        256
+    }
+}
+
+/// UTF-8 bit layout applied to any value below 2^21 (so that surrogates and values above 0x10FFFF can be written down)
+fn utf8_generalised(v: u32, out: &mut Vec<u8>) {
+    let v = v & 0x1F_FFFF;
+    if v < 0x80 {
+        out.push(v as u8);
+    } else if v < 0x800 {
+        out.extend([0xC0 | (v >> 6) as u8, 0x80 | (v & 0x3F) as u8]);
+    } else if v < 0x1_0000 {
+        out.extend([0xE0 | (v >> 12) as u8, 0x80 | ((v >> 6) & 0x3F) as u8, 0x80 | (v & 0x3F) as u8]);
+    } else {
+        out.extend([0xF0 | (v >> 18) as u8, 0x80 | ((v >> 12) & 0x3F) as u8, 0x80 | ((v >> 6) & 0x3F) as u8, 0x80 | (v & 0x3F) as u8]);
+    }
+}
+
+fn unitab_list_bytes(c: &UniTabCase, l: &UniList, terminated: bool, out: &mut Vec<u8>) {
+    if c.psf2 {
+        for v in &l.values {
+            utf8_generalised(*v, out);
+        }
+        out.extend(l.raw.iter());
+        for sq in &l.seqs {
+            out.push(0xFE);
+            for v in sq {
+                utf8_generalised(*v, out);
+            }
+        }
+        if terminated {
+            out.push(0xFF);
+        }
+    } else {
+        for v in &l.values {
+            out.extend((*v as u16).to_le_bytes());
+        }
+        for sq in &l.seqs {
+            out.extend(0xFFFEu16.to_le_bytes());
+            for v in sq {
+                out.extend((*v as u16).to_le_bytes());
+            }
+        }
+        if terminated {
+            out.extend(0xFFFFu16.to_le_bytes());
+        }
+    }
+}
+
+fn unitab_table(c: &UniTabCase) -> Vec<u8> {
+    let g = unitab_glyphs(c);
+    let variant = c.variant % UNI_VARIANTS;
+    let mut out = Vec::new();
+    if variant == 6 {
+        return out;
+    }
+    let empty = UniList::default();
+    let sp = pick(c.special_at, g);
+    let n = match variant {
+        1 => g - 1,
+        2 => g + 1,
+        _ => g,
+    };
+    for i in 0..n {
+        let l = match &c.special {
+            Some(s) if i == sp => s,
+            _ if c.lists.is_empty() => &empty,
+            _ => &c.lists[i % c.lists.len()],
+        };
+        unitab_list_bytes(c, l, !(variant == 3 && i + 1 == n), &mut out);
+    }
+    match variant {
+        4 => out.push(0x41),
+        5 => {
+            if c.psf2 {
+                out.push(0x42)
+            } else {
+                out.extend([0x42, 0x00])
+            }
+        }
+        _ => {}
+    }
+    out
+}
+
+fn unitab_bytes(c: &UniTabCase) -> Vec<u8> {
+    let h = (c.height as usize).clamp(1, 32);
+    let g = unitab_glyphs(c);
+    let body = (0..g * h).map(|i| (i as u32).wrapping_mul(c.mul as u32).wrapping_add(c.add as u32) as u8);
+    let mut v = if c.psf2 {
+        let mut v = Vec::new();
+        for f in [0x864a_b572u32, 0, 32, c.mode as u32, g as u32, h as u32, h as u32, 8] {
+            v.extend(f.to_le_bytes());
+        }
+        v
+    } else {
+        vec![0x36, 0x04, c.mode, h as u8]
+    };
+    v.extend(body);
+    v.extend(unitab_table(c));
+    v
+}
+
+/// does the table carry something that must never become a char?
+fn unitab_danger(c: &UniTabCase) -> bool {
+    if c.variant % UNI_VARIANTS == 6 {
+        return false;
+    }
+    let bad = |l: &UniList| {
+        let vals = l.values.iter().chain(l.seqs.iter().flatten());
+        if c.psf2 {
+            vals.clone().any(|v| !is_scalar(*v & 0x1F_FFFF)) || std::str::from_utf8(&l.raw).is_err()
+        } else {
+            vals.clone().any(|v| (0xD800..=0xDFFF).contains(&(*v as u16)))
+        }
+    };
+    c.lists.iter().any(bad) || c.special.as_ref().map(bad).unwrap_or(false)
+}
+
+fn uni_value(psf2: bool) -> BoxedStrategy<u32> {
+    let mut edges = UNI_EDGES.to_vec();
+    if psf2 {
+        edges.extend(UNI_EDGES_PSF2);
+    }
+    prop_oneof![3 => 0x20u32..=0x7E, 2 => 0xA0u32..=0xFF, 2 => 0x100u32..=0xFFFF, 3 => 0xD800u32..=0xDFFF, 4 => prop::sample::select(edges), 1 => 0u32..=0x1F_FFFF].boxed()
+}
+
+fn uni_list(psf2: bool) -> BoxedStrategy<UniList> {
+    let raw = if psf2 {
+        prop_oneof![5 => Just(Bytes(Vec::new())), 2 => prop::sample::select(BAD_UTF8.to_vec()).prop_map(|b| Bytes(b.iter().copied().filter(|x| *x < 0xFE).collect()))].boxed()
+    } else {
+        Just(Bytes(Vec::new())).boxed()
+    };
+    (vec(uni_value(psf2), 0..=3), prop_oneof![4 => Just(Vec::new()), 1 => vec(vec(uni_value(psf2), 1..=2), 1..=2)], raw).prop_map(|(values, seqs, raw)| UniList { values, seqs, raw }).boxed()
+}
+
+fn unitab_strategy() -> BoxedStrategy<UniTabCase> {
+    let per_fmt = |psf2: bool| {
+        (
+            prop_oneof![4 => prop::sample::select(if psf2 { vec![1u8, 1, 3] } else { vec![2u8, 3, 6, 7] }), 1 => 0u8..=7],
+            prop_oneof![3 => Just(1u8), 1 => 1u8..=16],
+            prop_oneof![2 => 1u16..=8, 1 => Just(256u16), 1 => 1u16..=600],
+            vec(uni_list(psf2), 0..=4),
+            any::<u16>(),
+            prop::option::weighted(0.6, uni_list(psf2)),
+            prop_oneof![6 => Just(0u8), 4 => 1u8..UNI_VARIANTS],
+            prop_oneof![3 => Just(0u8), 1 => Just(1u8), 1 => Just(2u8), 1 => Just(3u8)],
+            any::<u8>(),
+            any::<u8>(),
+        )
+            .prop_map(move |(mode, height, glyphs, lists, special_at, special, variant, via, mul, add)| UniTabCase { psf2, mode, height, glyphs, lists, special_at, special, variant, via, mul, add })
+    };
+    prop_oneof![3 => per_fmt(false), 2 => per_fmt(true)].boxed()
+}
+
+/// formats of the table: PSF1 modes with the table bit (2, 3, 6, 7), two without (0, 4: the bytes are there, the bit is not), PSF2 flags 1
+const UNITAB_FORMATS: &[(bool, u8)] = &[(false, 2), (false, 3), (false, 6), (false, 7), (false, 0), (false, 4), (true, 1)];
+
+fn unitab_table_total() -> u64 {
+    // format x edge value (PSF2: four more) x position (first / middle / last glyph; in a sequence) x variant x route
+    UNITAB_FORMATS.len() as u64 * (UNI_EDGES.len() + UNI_EDGES_PSF2.len()) as u64 * 4 * UNI_VARIANTS as u64 * 4
+}
+
+fn unitab_table_case(mut i: u64) -> UniTabCase {
+    let mut take = |n: u64| {
+        let r = i % n;
+        i /= n;
+        r
+    };
+    let via = take(4) as u8;
+    let variant = take(UNI_VARIANTS as u64) as u8;
+    let pos = take(4);
+    let e = take((UNI_EDGES.len() + UNI_EDGES_PSF2.len()) as u64) as usize;
+    let (psf2, mode) = UNITAB_FORMATS[take(UNITAB_FORMATS.len() as u64) as usize];
+    let value = if e < UNI_EDGES.len() {
+        UNI_EDGES[e]
+    } else if psf2 {
+        UNI_EDGES_PSF2[e - UNI_EDGES.len()]
+    } else {
+        // PSF1 has no values above 16 bits: the slot is used for further surrogates
+        [0xD801, 0xDB7F, 0xDC01, 0xDFFE][e - UNI_EDGES.len()]
+    };
+    let special = if pos == 3 { UniList { values: vec![0x41], seqs: vec![vec![0x61, value]], raw: Bytes(Vec::new()) } } else { UniList { values: vec![0x263A, value], seqs: Vec::new(), raw: Bytes(Vec::new()) } };
+    UniTabCase {
+        psf2,
+        mode,
+        height: 1,
+        glyphs: 8,
+        lists: vec![UniList { values: vec![0x2592], seqs: Vec::new(), raw: Bytes(Vec::new()) }, UniList::default()],
+        special_at: [0u16, 0x8000, 0xFFFF, 0x4000][pos as usize],
+        special: Some(special),
+        variant,
+        via,
+        mul: 3,
+        add: 1,
+    }
+}
+
+fn unitab_src(c: &UniTabCase) -> &'static str {
+    if c.psf2 {
+        "psf2_unitab"
+    } else {
+        "psf1_unitab"
+    }
+}
+
+fn check_unitab(c: &UniTabCase) -> Verdict {
+    let data = unitab_bytes(c);
+    let src = unitab_src(c);
+    let table = unitab_table(c);
+    let what = format!(
+        "{} font, {} {:#04x}, {} glyphs of height {}, followed by a unicode table of {} bytes (variant {}: \"{}\"{})",
+        if c.psf2 { "PSF2" } else { "PSF1" },
+        if c.psf2 { "flags" } else { "mode" },
+        c.mode,
+        unitab_glyphs(c),
+        (c.height as usize).clamp(1, 32),
+        table.len(),
+        c.variant % UNI_VARIANTS,
+        escape(&table[..table.len().min(40)]),
+        if table.len() > 40 { "..." } else { "" }
+    );
+    let probe = c.special.as_ref().and_then(|s| s.values.last().copied()).unwrap_or(0xD800) & 0xFFFF;
+    match font_route(&data, c.via, src, &what, probe) {
+        Err(v) => v,
+        Ok(outcome) => {
+            let danger = unitab_danger(c);
+            let has_bit = if c.psf2 { c.mode & 1 != 0 } else { c.mode & 2 != 0 };
+            let class = format!(
+                "{src}:{}:{}{}{}:{outcome}",
+                ROUTES[(c.via % 4) as usize],
+                if has_bit { "tab_bit" } else { "no_bit" },
+                if c.variant % UNI_VARIANTS == 0 { "+complete" } else { "+malformed" },
+                if danger { "+danger" } else { "" }
+            );
+            Verdict::pass(danger && has_bit && outcome == "ok", class)
+        }
+    }
 }
 
 // ------------------------------------------------------------------------------------------------
@@ -1332,12 +1646,15 @@ fn main() {
          0xD700..0xE0FF, 2^16+-8, 2^17+-8, 0x10FFF8..0x110007 for ten such states (boundary windows only for the two largest fonts and the DCS state); the macro parts use the same states. clipboard: records for Layer::from_clipboard_data, all 65536 char values enumerated, sizes 0..=8 x 0..=5 generated. \
          icy: .icy files (engine-written template, zTXt payloads rebuilt from doc/FileFormats/ICEDFormat.md) whose LAYER_0 / LAYER_0~k chunks carry long-form char fields over all 32 bits, \
          whose title / FONT name byte strings include ill-formed UTF-8 (table of 21 classic forms, enumerated), optional SAUCE chunk with arbitrary CP437 bytes. fonts: PSF1 / PSF2 / raw \
-         data with 0..=2^17 glyphs (height 1..32, at most 2^18 bytes) through BitFont::from_bytes, the CTerm font DCS and an .icy FONT chunk. macros: DECDMAC definitions in hex and text \
+         data with 0..=2^17 glyphs (height 1..32, at most 2^18 bytes) through BitFont::from_bytes, the CTerm font DCS, an .icy FONT chunk and Buffer::set_font + selection + drawing. font_unitab: PSF1 (mode bits 0x01/0x02/0x04 in every \
+         combination) and PSF2 (flags bit 0) fonts followed by the optional unicode table written from the PSF specification: per glyph 0..=3 values, optional sequences, terminator; values from \
+         {ASCII, Latin-1, 0xD7FF, 0xD800, 0xDBFF, 0xDC00, 0xDFFF, 0xE000, 0xFFFD, 0xFFFE, 0xFFFF, any 16-bit; PSF2 also > 0xFFFF, > 0x10FFFF and ill-formed UTF-8}; table complete, one list short / long, \
+         terminator missing, stray byte / value at the end, absent; table bit set or not; the same four routes (format x edge value x position x variant x route enumerated). macros: DECDMAC definitions in hex and text \
          encoding with bytes 0x80..0xFF (all 256 values x 4 forms and 21 ill-formed UTF-8 byte runs x 2 encodings enumerated), invoked 0..=2 times. \
          Observation: the raw u32 of every stored cell (Line::chars), of every cell returned by Layer::get_char / Buffer::get_char and of every BitFont::glyphs key via read_volatile; \
          from_utf8 on a volatile byte copy of every layer title, font name, SAUCE string, parser.parse_string / macro_dcs. Err / None results are accepted. \
          Non-trivial: the input carries a non-scalar number (surrogate or > 0x10FFFF) in a char field the loader reaches (non-empty DECFRA rectangle; clipboard cell inside w*h; icy cell in a \
-         chunk whose rows are stored; glyph count > 0xD800 with the font accepted), ill-formed UTF-8 in a title / font name, a byte >= 0x80 in a SAUCE text field, or a byte >= 0x80 in an invoked macro body. Cases that fail are not counted (they are violations or excluded_known). Distinct by case hash.",
+         chunk whose rows are stored; glyph count > 0xD800 with the font accepted; a surrogate / non-scalar / ill-formed entry in a unicode table whose mode bit is set, font accepted), ill-formed UTF-8 in a title / font name, a byte >= 0x80 in a SAUCE text field, or a byte >= 0x80 in an invoked macro body. Cases that fail are not counted (they are violations or excluded_known). Distinct by case hash.",
     );
     eng.assume("a scan sees materialised values only; an invalid char that exists transiently (e.g. as a HashMap lookup key in BitFont::calculate_checksum / to_psf2_bytes) leaves no trace and is not observed");
     eng.assume("SAUCE record layout from the SAUCE rev. 5 document; .icy chunk layout from doc/FileFormats/ICEDFormat.md; the PNG container is written with the png crate");
@@ -1399,12 +1716,17 @@ fn main() {
     eng.generated_with_class(PartCfg::new("icy", 100_000, 1_000_000).isolated().heap_cap(512 << 20).shrink_budget(400), icy_strategy, check_icy, |_| "source=icy".to_string());
 
     // (iv) fonts
-    eng.enumerated_with_class(PartCfg::new("font_table", 0, 0).isolated().heap_cap(512 << 20).shrink_budget(400).exhaustive(true).threads(4), FONT_COUNTS.len() as u64 * 9, font_table, check_font, |c| {
+    eng.enumerated_with_class(PartCfg::new("font_table", 0, 0).isolated().heap_cap(512 << 20).shrink_budget(400).exhaustive(true).threads(4), FONT_COUNTS.len() as u64 * 12, font_table, check_font, |c| {
         format!("source={}", FONT_FMT[(c.fmt % 4) as usize])
     });
     eng.generated_with_class(PartCfg::new("fonts", 5_000, 40_000).isolated().heap_cap(512 << 20).shrink_budget(400).timeout_ms(60_000), font_strategy, check_font, |c| format!("source={}", FONT_FMT[(c.fmt % 4) as usize]));
 
-    // (v) macros
+    // (iv b) optional unicode tables of PSF fonts
+    eng.enumerated_with_class(PartCfg::new("font_unitab_table", 0, 0).isolated().heap_cap(512 << 20).shrink_budget(400).exhaustive(true).threads(4), unitab_table_total(), unitab_table_case, check_unitab, |c| {
+        format!("source={}", unitab_src(c))
+    });
+    eng.generated_with_class(PartCfg::new("font_unitab", 40_000, 600_000).isolated().heap_cap(512 << 20).shrink_budget(400), unitab_strategy, check_unitab, |c| format!("source={}", unitab_src(c)));
+
     eng.enumerated_with_class(PartCfg::new("macro_bytes", 0, 0).isolated().heap_cap(512 << 20).shrink_budget(400).exhaustive(true).threads(1), 3 * MACRO_TABLE_BASE, macro_table, check_macro, |c| format!("source={}", macro_src(c)));
     eng.generated_with_class(PartCfg::new("macros", 100_000, 1_000_000).isolated().heap_cap(512 << 20).shrink_budget(400), macro_strategy, check_macro, |c| format!("source={}", macro_src(c)));
 
